@@ -291,6 +291,95 @@ pub fn judge(c: &Case, rec: &mut Rec) -> Verdict {
     }
 }
 
+// ------------------------------------------------------------------ links whose resolved absolute path exceeds PATH_MAX
+
+#[derive(Clone, Debug, Serialize, Deserialize)]
+pub struct LongCase {
+    /// nested directories of 250 bytes each between the link and its target
+    pub levels: u8,
+    /// length of one more directory name above the working directory: shifts the absolute path across PATH_MAX
+    pub pad: u16,
+    pub flags: (bool, u8, Option<u64>),
+    pub payload: u32,
+}
+
+pub fn long_strategy() -> BoxedStrategy<LongCase> {
+    (prop_oneof![1 => Just(14u8), 2 => Just(15u8), 4 => Just(16u8)], prop_oneof![Just(1u16), Just(20u16), Just(30u16), Just(40u16), Just(100u16), Just(250u16)], common_flags(), prop_oneof![Just(0u32), 1u32..5000, Just(70000u32)])
+        .prop_map(|(levels, pad, flags, payload)| LongCase { levels, pad, flags, payload })
+        .boxed()
+}
+
+struct RmRf(std::path::PathBuf);
+impl Drop for RmRf {
+    fn drop(&mut self) {
+        // rm walks with openat(); the harness' own cleanup uses absolute paths and would stop at PATH_MAX
+        let _ = std::process::Command::new("rm").arg("-rf").arg("P").current_dir(&self.0).status();
+    }
+}
+
+pub fn judge_long(c: &LongCase, rec: &mut Rec) -> Verdict {
+    let sb = match Sandbox::new() {
+        Ok(s) => s,
+        Err(e) => return Verdict::Inconclusive(format!("sandbox: {e}")),
+    };
+    let _guard = RmRf(sb.root.clone());
+    let pad = "p".repeat(c.pad as usize);
+    let script = format!(
+        "set -e; B=P/{pad}/base; mkdir -p $B/src $B/dest; cd $B; SEG=$(printf '%0250d' 0); REL=deep; i=0; while [ $i -lt {lv} ]; do REL=$REL/$SEG; i=$((i+1)); done; mkdir -p $REL; yes 'xv long path payload' | head -c {n} > $REL/file.txt; echo plain > src/plain.txt; ln -s ../$REL/file.txt src/far.lnk; ln -s plain.txt src/near.lnk; cp $REL/file.txt twin",
+        pad = pad,
+        lv = c.levels,
+        n = c.payload
+    );
+    let st = std::process::Command::new("sh").arg("-c").arg(&script).current_dir(&sb.root).status();
+    if !st.map(|s| s.success()).unwrap_or(false) {
+        return Verdict::Inconclusive("building the deep tree failed (filesystem refuses the long link target?)".into());
+    }
+    let base = sb.root.join("P").join(&pad).join("base");
+    let abs_len = pbytes(&base).len() + 1 + 4 + c.levels as usize * 251 + 9;
+    let mut inv = Inv::default();
+    apply_common(&mut inv, c.flags);
+    inv.recursive = true;
+    inv.deref = true;
+    inv.sources = vec![b"src".to_vec()];
+    inv.dest = b"dest".to_vec();
+    let out = run_plain(&RunSpec::xcp(inv.argv(), &base, &sb.out));
+    rec.eval(1);
+    if out.timed_out {
+        return Verdict::Inconclusive("watchdog".into());
+    }
+    let driver = inv.driver();
+    let over = abs_len > 4096;
+    let new = rec.class(format!("longpath|{}|resolved-path-{}-PATH_MAX|exit={}", driver, if over { "over" } else { "under" }, if out.ok() { "0" } else { "!0" }));
+    rec.nontrivial(case_hash(c));
+    if new {
+        rec.sample(json!({"argv": inv.argv_s(), "resolved_absolute_path_bytes": abs_len, "link_target_bytes": 3 + 4 + c.levels as usize * 251 + 9, "exit": out.code, "stderr": out.stderr_s().lines().last().unwrap_or("").chars().take(160).collect::<String>()}));
+    }
+    if !out.ok() {
+        if !over {
+            return Verdict::faild(format!("C13|{}|longpath|resolvable-link-fails", driver), format!("every path is below PATH_MAX ({} bytes) but the run failed: {}", abs_len, out.stderr_s().lines().last().unwrap_or("")), json!({"argv": inv.argv_s()}));
+        }
+        return Verdict::Pass; // "or fails"
+    }
+    let post = match snapshot(&base.join("dest")) {
+        Ok(s) => s,
+        Err(e) => return Verdict::Inconclusive(format!("snapshot: {e}")),
+    };
+    if let Some((p, _)) = post.iter().find(|(_, m)| m.kind == K::L) {
+        return Verdict::faild(format!("C13|{}|link-left|longpath", driver), format!("-L exit 0 but dest/{} is a symbolic link (its target resolves to a path of {} bytes)", esc(p), abs_len), json!({"argv": inv.argv_s(), "stderr": out.stderr_s()}));
+    }
+    let want_far = hash_file(&base.join("twin")).ok();
+    let want_near = hash_file(&base.join("src/plain.txt")).ok();
+    for (name, want) in [(b"src/far.lnk".as_slice(), want_far), (b"src/near.lnk".as_slice(), want_near)] {
+        match post.get(name) {
+            Some(m) if m.kind == K::F && m.hash == want => {}
+            other => {
+                return Verdict::faild(format!("C13|{}|content|longpath", driver), format!("-L exit 0 but dest/{} is {:?}, expected a regular file with the target's bytes", esc(name), other.map(|m| (m.kind, m.size))), json!({"argv": inv.argv_s()}))
+            }
+        }
+    }
+    Verdict::Pass
+}
+
 impl Check for C13 {
     fn id(&self) -> &'static str {
         "C13"
@@ -307,8 +396,15 @@ impl Check for C13 {
             Tier::Thorough => 30000,
         };
         prop_loop(ctx, rec, "gen", strategy(), ctx.share(total), judge);
+        prop_loop(ctx, rec, "long", long_strategy(), ctx.share(total / 25), judge_long);
     }
-    fn replay(&self, _ctx: &Ctx, _sub: &str, case: &Value) -> Verdict {
+    fn replay(&self, _ctx: &Ctx, sub: &str, case: &Value) -> Verdict {
+        if sub == "long" {
+            return match serde_json::from_value::<LongCase>(case.clone()) {
+                Ok(c) => judge_long(&c, &mut Rec::default()),
+                Err(e) => Verdict::Inconclusive(format!("bad case: {e}")),
+            };
+        }
         match serde_json::from_value::<Case>(case.clone()) {
             Ok(c) => judge(&c, &mut Rec::default()),
             Err(e) => Verdict::Inconclusive(format!("bad case: {e}")),
@@ -321,6 +417,6 @@ impl Check for C13 {
         }
     }
     fn required_classes(&self, _tier: Tier) -> Vec<String> {
-        ["mustfail|dangling", "mustfail|link", "mustfail|directory", "chain40", "dirlinks=1", "leaves-source", "top_link=true", "cross-directory-relative-chain", "deep=150|via_link=true", "deep=300|", "opts|gitignore=true|glob-children=false|plan=copy", "opts|gitignore=false|glob-children=true|plan=mustfail", "opts|gitignore=false|glob-children=true|plan=copy"].iter().map(|s| s.to_string()).collect()
+        ["mustfail|dangling", "mustfail|link", "mustfail|directory", "chain40", "dirlinks=1", "leaves-source", "top_link=true", "cross-directory-relative-chain", "deep=150|via_link=true", "deep=300|", "opts|gitignore=true|glob-children=false|plan=copy", "opts|gitignore=false|glob-children=true|plan=mustfail", "opts|gitignore=false|glob-children=true|plan=copy", "resolved-path-over-PATH_MAX", "resolved-path-under-PATH_MAX|exit=0"].iter().map(|s| s.to_string()).collect()
     }
 }
